@@ -98,7 +98,9 @@ for Crossbeam<'a, ItemType, BUFFER_SIZE, MAX_STREAMS> {
     fn send(&self, item: ItemType) -> keen_retry::RetryConsumerResult<(), ItemType, ()> {
         match self.tx.len() {
             len_before if len_before <= 2 => {
+                #[cfg(feature = "verif")] crate::verif::point(crate::verif::UNI_XB_BETWEEN_LEN_AND_SEND);
                 let ret = self.tx.try_send(item);
+                #[cfg(feature = "verif")] crate::verif::point(crate::verif::UNI_XB_AFTER_SEND_BEFORE_WAKE);
                 self.streams_manager.wake_stream(0);
                 ret
             },
@@ -122,6 +124,7 @@ for Crossbeam<'a, ItemType, BUFFER_SIZE, MAX_STREAMS> {
         // (crossbeam channels don't have an API that plays nice with setting the value from a closure)
 
         // the following value-filling sequence avoids UB for droppable types & references (like `&str`)
+        #[cfg(feature = "verif")] crate::verif::point(crate::verif::UNI_XB_AFTER_FULL_TEST);
         let mut item = MaybeUninit::uninit();
         let item_ref = unsafe { &mut *item.as_mut_ptr() };
         setter(item_ref);
@@ -140,6 +143,7 @@ for Crossbeam<'a, ItemType, BUFFER_SIZE, MAX_STREAMS> {
         if self.tx.is_full() {
             return keen_retry::RetryResult::Transient { input: setter, error: () }
         }
+        #[cfg(feature = "verif")] crate::verif::point(crate::verif::UNI_XB_AFTER_FULL_TEST);
         let mut item = MaybeUninit::uninit();
         let item_ref = unsafe { &mut *item.as_mut_ptr() };
         setter(item_ref).await;
